@@ -66,45 +66,8 @@ impl Write for Vec<u8> {
     fn write_all(&mut self, buf: &[u8]) -> (r: Result<(), IoError>) { unimplemented!() }
 }
 
-// ---- THE shared specification of a serialized chunk at position `pos` of `bytes` (same functions for every decoder) --------------------
-pub open spec fn chunk_clen(bytes: Seq<u8>, pos: nat) -> nat { le3(bytes, pos as int + 1) }
-pub open spec fn chunk_ulen(bytes: Seq<u8>, pos: nat) -> nat { le3(bytes, pos as int + 5) }
-pub open spec fn chunk_scheme(bytes: Seq<u8>, pos: nat) -> Option<CompressionScheme> { scheme_of_byte(bytes[pos as int + 4]) }
-// payload bytes actually present (all of them for a well-formed chunk)
-pub open spec fn chunk_avail(bytes: Seq<u8>, pos: nat) -> nat {
-    if pos + 8 + chunk_clen(bytes, pos) <= bytes.len() { chunk_clen(bytes, pos) } else { (bytes.len() - (pos + 8)) as nat }
-}
-pub open spec fn chunk_payload(bytes: Seq<u8>, pos: nat) -> Seq<u8> { bytes.subrange(pos as int + 8, pos as int + 8 + chunk_avail(bytes, pos)) }
-pub open spec fn chunk_data(bytes: Seq<u8>, pos: nat) -> Seq<u8> {
-    match chunk_scheme(bytes, pos) { Some(s) => decode_spec(s, chunk_payload(bytes, pos)), None => Seq::empty() }
-}
-pub open spec fn chunk_next(bytes: Seq<u8>, pos: nat) -> nat { pos + 8 + chunk_avail(bytes, pos) }
-pub open spec fn well_formed_at(bytes: Seq<u8>, pos: nat) -> bool { pos + 8 + chunk_clen(bytes, pos) <= bytes.len() }
-// what every single-chunk decoder must deliver on Ok: the returned pair, the bytes appended to the writer, the new reader position
-pub open spec fn single_ok(bytes: Seq<u8>, pos: nat, w0: Seq<u8>, w1: Seq<u8>, pos1: nat, ret: (usize, u32)) -> bool {
-    &&& pos + 8 <= bytes.len() && chunk_scheme(bytes, pos) is Some
-    &&& ret.0 == 8 + chunk_clen(bytes, pos)
-    &&& ret.1 == chunk_ulen(bytes, pos) && chunk_ulen(bytes, pos) == chunk_data(bytes, pos).len()
-    &&& w1 == w0 + chunk_data(bytes, pos)
-    &&& pos1 == chunk_next(bytes, pos)
-}
+//@ include prelude/xorbidx_chunkspec.rs
 
-
-// ---- the shared specification of a run of chunks starting at p0 ---------------------------------------------------------------------------
-pub open spec fn walk_pos(bytes: Seq<u8>, p0: nat, i: nat) -> nat decreases i {
-    if i == 0 { p0 } else { chunk_next(bytes, walk_pos(bytes, p0, (i - 1) as nat)) }
-}
-// prefix sums of the DECODED lengths
-pub open spec fn total_len(bytes: Seq<u8>, p0: nat, i: nat) -> nat decreases i {
-    if i == 0 { 0 } else { total_len(bytes, p0, (i - 1) as nat) + chunk_data(bytes, walk_pos(bytes, p0, (i - 1) as nat)).len() }
-}
-pub open spec fn concat_data(bytes: Seq<u8>, p0: nat, i: nat) -> Seq<u8> decreases i {
-    if i == 0 { Seq::empty() } else { concat_data(bytes, p0, (i - 1) as nat) + chunk_data(bytes, walk_pos(bytes, p0, (i - 1) as nat)) }
-}
-// sum of the serialized sizes the headers claim (8 + compressed length)
-pub open spec fn claimed_len(bytes: Seq<u8>, p0: nat, i: nat) -> nat decreases i {
-    if i == 0 { 0 } else { claimed_len(bytes, p0, (i - 1) as nat) + 8 + chunk_clen(bytes, walk_pos(bytes, p0, (i - 1) as nat)) }
-}
 // what every multi-chunk decoder must deliver on Ok: indices [0, |d_0|, |d_0|+|d_1|, ...], data = d_0 ++ d_1 ++ ... (followed only by
 // whatever the final, failing single-chunk call wrote before it hit the end of input), total of the claimed sizes
 pub open spec fn multi_data_ok(bytes: Seq<u8>, p0: nat, w0: Seq<u8>, w1: Seq<u8>, idx: Seq<u32>) -> bool {
